@@ -999,6 +999,79 @@ def part_d(ctx):
 
 
 # ---------------------------------------------------------------------------
+# (g) the hypothesis of the round-trip theorem: only the SUPPORT needs lexable names
+# ---------------------------------------------------------------------------
+
+ODD_NAMES = ['TRUE', 'x-y', 'ite', 'a.b', 'False']
+
+
+def part_g(ctx):
+    """`C05_addExpr_toExpr` asks for lexable names in the support of `u` only (`lexableSupport`):
+    the manager declares variables whose names are NOT read back as that NAME (`TRUE`, `x-y`, `ite`,
+    `a.b`, `False`: the F13 names) between `a`, `b`, `c`; every function of `a, b, c` (both signs)
+    round-trips, on `dd.bdd` (exact correspondence with the model) and on `dd.autoref`
+    (`C05_autoref_addExpr_toExpr`; oracle only), also with dynamic reordering enabled there."""
+    import dd.autoref as _autoref
+    rng = ctx.rng
+    sp = Space(ABC)
+    odd = rng.sample(ODD_NAMES, 3)
+    order = list(ABC) + odd
+    rng.shuffle(order)
+    s = Session(ctx)
+    s.new(0, order)
+    refs = all_functions(s, sp)
+    b = s.mgr(0)
+    tt = TT(b, ABC)
+    for t, r in refs.items():
+        for u in (r, -r):
+            ans = s.op(0, 'to_expr', u)
+            back = s.op(0, 'add_expr', esc(ans[3:]))
+            ctx.evaluations += 1
+            if not ans.startswith('ok ') or s.val(back) != u:
+                ctx.violation('add_expr(to_expr(u)) != u in a manager that declares odd names outside '
+                              'the support of u', dict(
+                    ref=u, text=ans, got=back, order=order,
+                    tags=dict(call='to_expr', kind='roundtrip-support')))
+            elif tt.of(s.val(back)) != (t if u == r else sp.neg(t)):
+                ctx.violation('round trip returns another function', dict(
+                    ref=u, text=ans, tags=dict(call='to_expr', kind='roundtrip-support')))
+    ctx.count('to_expr-roundtrips-odd-names-declared', 512)
+    s.state(0)
+    ctx.case(('to_expr-odd', tuple(order)))
+    ctx.add_session(s, SECTIONS_L2, f'C05 to_expr, odd names declared {order}')
+    s.close()
+    # autoref, reordering off and enabled
+    for dyn in (False, True):
+        bdd = _autoref.BDD()
+        bdd.declare(*order)
+        bdd.configure(reordering=dyn)
+        bb = bdd._bdd
+        keep = []
+        for _ in range(120):
+            e = random_ast(rng, rng.randint(1, 5), ABC, [1, -1], binder_names=ABC)
+            f = Printer(rng, redundant=0.1).text(e)
+            u = bdd.add_expr(f)
+            keep.append(u)
+            if len(keep) > 25:
+                keep.pop(rng.randrange(len(keep)))
+            w = rng.choice(keep)
+            want = TT(bb, ABC).of(w.node)
+            v = bdd.add_expr(bdd.to_expr(w))
+            ctx.evaluations += 1
+            if v != w or v.node != w.node or TT(bb, ABC).of(v.node) != want:
+                ctx.violation('autoref add_expr(to_expr(u)) != u', dict(
+                    formula=f, reordering=dyn, order=order,
+                    tags=dict(call='autoref.to_expr', kind='roundtrip-support')))
+        bad = check_invariants(bb)
+        if bad:
+            ctx.violation('autoref manager inconsistent after the round trips', dict(
+                problems=bad[:3], tags=dict(call='autoref.add_expr', kind='invariant')))
+        ctx.count('autoref-roundtrips' + ('-dyn' if dyn else ''), 120)
+        ctx.case(('autoref-roundtrip', dyn, tuple(order)))
+        del keep, bdd
+
+
+# ---------------------------------------------------------------------------
 # (e) syntax errors at every token position
 # ---------------------------------------------------------------------------
 
@@ -1140,6 +1213,7 @@ def check_C05(ctx):
     build_driver(ctx)
     probe_names(ctx)
     part_d(ctx)
+    part_g(ctx)
     part_bc(ctx)
     part_e(ctx)
     part_f(ctx)
@@ -1158,7 +1232,8 @@ REGISTRY = {
             'the next length, lexer on all short special-character strings, grammar-generated formulas up to depth 6 '
             'with random spellings/comments/parentheses; add_expr exact references+state vs model under all 6 orders, '
             '@n both signs, every operator pair/both orders vs a recursive-descent reader of doc.md over truth tables; '
-            'add_expr(to_expr(u)) == u for all 256 functions both signs; syntax errors injected at every token position; '
+            'add_expr(to_expr(u)) == u for all 256 functions both signs, also in a manager that declares names that are not NAME '
+            'tokens (TRUE, x-y, ite, a.b, False) outside the support, and over dd.autoref with reordering off and enabled; syntax errors injected at every token position; '
             'lexical layer: random token strings (any sequence of tokens) under random layouts (every spelling row, '
             'glued/blank/comment gaps, leading and final comments) read back by the real lexer and the model, same parse '
             'answer for two layouts of one token string, all glued pairs of token texts against needsBlank and its converse, '
